@@ -200,6 +200,10 @@ class Socket:
         net.sched.block(label='send')
         if self.closed:
             raise ZMQError(88, 'Socket operation on non-socket')
+        if net.fail_next and net.fail_next.get(self.owner) == 'send':
+            del net.fail_next[self.owner]
+            net.stats['injected_socket_errors'] += 1
+            raise ZMQError(5, 'injected I/O error on send')
         parts = [bytes(p) if not isinstance(p, bytes) else p for p in parts]
         if self.type == PUB:
             net._pub_send(self, parts)
@@ -219,6 +223,10 @@ class Socket:
             net.sched.block(lambda: bool(self.inq), None, 'recv')
         else:
             net.sched.block(label='recv')
+        if net.fail_next and net.fail_next.get(self.owner) == 'recv':
+            del net.fail_next[self.owner]
+            net.stats['injected_socket_errors'] += 1
+            raise ZMQError(5, 'injected I/O error on recv')
         parts, pipe = self.inq.popleft()
         if pipe is not None:
             if pipe.a is self:
@@ -336,6 +344,7 @@ class Net:
         self.taps = []             # fn(kind, sock, parts, extra)
         self.events = []           # compact log of network events (for reports and digest)
         self.keep_events = False
+        self.fail_next = {}        # proc -> 'send' | 'recv': the next such socket call of that process raises
 
     def _next_sid(self):
         self._sid += 1
